@@ -3,6 +3,7 @@ package scen
 import (
 	crand "crypto/rand"
 	"encoding/hex"
+	"encoding/json"
 	"errors"
 	"fmt"
 	"io"
@@ -309,6 +310,33 @@ func runUUID(e *Env) {
 				}
 			}
 			keptText, keptJSON, keptOf = mt, mj, u
+		}
+		// printing through encoding/json, which holds the UUID the way a caller's data does:
+		// as a value, inside an interface (the rows of MapScan), as a map value and a map key
+		{
+			type rowT struct {
+				ID gocql.UUID `json:"id"`
+			}
+			var backV gocql.UUID
+			var backI map[string]gocql.UUID
+			var backK map[gocql.UUID]int
+			var backR rowT
+			bv, e1 := json.Marshal(u)
+			bi, e2 := json.Marshal(map[string]interface{}{"id": u})
+			bk, e3 := json.Marshal(map[gocql.UUID]int{u: 1})
+			br, e4 := json.Marshal(rowT{ID: u})
+			for _, e := range []error{e1, e2, e3, e4} {
+				if e != nil {
+					k.Violate("C19", "C19/print-parse-roundtrip", "json.Marshal of a value holding %s failed: %v", u, e)
+					return
+				}
+			}
+			e1, e2, e3, e4 = json.Unmarshal(bv, &backV), json.Unmarshal(bi, &backI), json.Unmarshal(bk, &backK), json.Unmarshal(br, &backR)
+			_, inK := backK[u]
+			if e1 != nil || e2 != nil || e3 != nil || e4 != nil || backV != u || backI["id"] != u || !inK || backR.ID != u {
+				k.Violate("C19", "C19/print-parse-roundtrip", "%s printed by encoding/json as a value %s, inside an interface %s, as a map key %s, as a struct field %s does not parse back to itself (errors %v %v %v %v)", u, bv, bi, bk, br, e1, e2, e3, e4)
+				return
+			}
 		}
 		prev = u
 		// any RFC 4122 version-1 UUID of this instant (arbitrary clock sequence and node) lies
